@@ -146,7 +146,7 @@ Definition last_after (tbl : list (text * score)) (st : bz) (o : op) : Q :=
       let target := clamph (match f with Some q => q | None => b_last st end) in
       if qlt q0 target && (1 <=? c_int times) then target else b_last st
   | Sweep s e _ steps =>
-      last (positives (sweep_freqs (clamp0 s) (clamp0 e) (Z.max 1 (c_int steps)))) (b_last st)
+      last (positives (sweep_freqs (clamp0 s) (clamp0 e) (Z.max 0 (c_int steps)))) (b_last st)
   | Melody name _ =>
       match tlookup name tbl with
       | Some (_, seq) => last (positives (map fst seq)) (b_last st)
